@@ -847,7 +847,78 @@ pub fn part_evalfp(out: &mut Out, o: &Opts) {
     ] {
         emit_eval(out, f, &[]);
     }
+    // long iterations: a chain that grows by one variable per round (the pattern of tests/data/test_fixpoint.txt),
+    // n rounds for n variables, and its dual
+    let chain_ns: &[usize] = if o.thorough { &[2, 5, 40, 64, 65, 127, 128, 129, 135, 256, 300] } else { &[2, 5, 40, 129] };
+    for &n in chain_ns {
+        let mut mu = String::from("mu X # v0");
+        let mut nu = String::from("nu X # v0");
+        for i in 0..n.saturating_sub(1) {
+            mu.push_str(&format!(" | (if (all v{i} # v{i} in X) then (X | v{}) else X)", i + 1));
+            nu.push_str(&format!(" & (if (exists v{i} # X & -v{i}) then X else (X & v{}))", i + 1));
+        }
+        emit_eval(out, &mu, &[]);
+        if n <= 40 || o.thorough {
+            emit_eval(out, &nu, &[]);
+            let all: Vec<String> = (0..n).map(|i| format!("v{i}")).collect();
+            emit_eval(out, &format!("({mu}) <=> ({})", all.join(" | ")), &[]);
+        }
+    }
     let mut rng = Rng::new(o.seed ^ 0x76);
+    // reachability-style bodies: clauses that need one, two or three quantified uses of X at once, uses of X under
+    // forall, and quantified uses inside counting lists with no quantifier elsewhere
+    let nr = if o.thorough { 60_000 } else { 4_000 };
+    for k in 0..nr {
+        let vars = ["a", "b", "c"];
+        let nv = 2 + (k % 2);
+        let vs = &vars[..nv];
+        let cube = |rng: &mut Rng| -> String {
+            let mut lits = vec![];
+            for v in vs {
+                match rng.below(3) {
+                    0 => lits.push(v.to_string()),
+                    1 => lits.push(format!("-{v}")),
+                    _ => {}
+                }
+            }
+            if lits.is_empty() { "true".to_string() } else { lits.join(" & ") }
+        };
+        let qx = |rng: &mut Rng, dual: bool| -> String {
+            let mut qv: Vec<&str> = vs.iter().filter(|_| rng.chance(2, 3)).cloned().collect();
+            if qv.is_empty() {
+                qv.push(vs[0]);
+            }
+            let c = cube(rng);
+            if rng.chance(1, 4) != dual {
+                format!("(forall {} # (X | -({c})))", qv.join(", "))
+            } else {
+                format!("(exists {} # (X & {c}))", qv.join(", "))
+            }
+        };
+        let dual = k % 5 == 4;
+        let nclauses = 2 + rng.below(3);
+        let mut clauses = vec![format!("({})", cube(&mut rng))];
+        for _ in 0..nclauses {
+            let guard = cube(&mut rng);
+            let uses = 1 + rng.below(3);
+            let mut parts = vec![format!("({guard})")];
+            for _ in 0..uses {
+                parts.push(qx(&mut rng, dual));
+            }
+            clauses.push(format!("({})", parts.join(if dual { " | " } else { " & " })));
+        }
+        if rng.chance(1, 3) {
+            // a counting clause whose operands are quantified uses of X; sometimes the only quantifiers of the body
+            let ops: Vec<String> = (0..2 + rng.below(2)).map(|_| qx(&mut rng, dual)).collect();
+            let cnt = format!("([{}] >= {})", ops.join(", "), 1 + rng.below(2));
+            if rng.chance(1, 2) {
+                clauses.truncate(1);
+            }
+            clauses.push(cnt);
+        }
+        let f = format!("{} X # {}", if dual { "gfp" } else { "lfp" }, clauses.join(if dual { " & " } else { " | " }));
+        emit_eval(out, &f, &[]);
+    }
     // nested and alternating fixed points whose inner body mentions the outer name, sibling inner
     // fixed points on one binder name, three levels
     let nn = if o.thorough { 40_000 } else { 2_500 };
